@@ -159,6 +159,9 @@ impl<DataInterfaceType: DeduplicationDataInterface> FileDeduper<DataInterfaceTyp
         // Now, go through and process the result of the query.
         let mut cur_idx = 0;
 
+        // Chunks before this index are part of a dedup run that fragmentation prevention refused.
+        let mut defrag_withheld_end = 0;
+
         while cur_idx < chunks.len() {
             let mut dedupe_query = deduped_blocks[cur_idx].take();
 
@@ -169,24 +172,26 @@ impl<DataInterfaceType: DeduplicationDataInterface> FileDeduper<DataInterfaceTyp
             }
 
             if let Some((n_deduped, fse)) = dedupe_query {
-                dedup_metrics.deduped_chunks += n_deduped;
-                dedup_metrics.deduped_bytes += fse.unpacked_segment_bytes as usize;
-                dedup_metrics.total_chunks += n_deduped;
-                dedup_metrics.total_bytes += fse.unpacked_segment_bytes as usize;
-
                 // check the fragmentation state and if it is pretty fragmented,
                 // we skip dedupe.  However, continuing the previous is always fine.
                 if self.file_data_sequence_continues_current(&fse)
                     || self.defrag_tracker.allow_dedup_on_next_range(n_deduped)
                 {
+                    // These chunks are deduplicated; count them exactly once.
+                    dedup_metrics.deduped_chunks += n_deduped;
+                    dedup_metrics.deduped_bytes += fse.unpacked_segment_bytes as usize;
+                    dedup_metrics.total_chunks += n_deduped;
+                    dedup_metrics.total_bytes += fse.unpacked_segment_bytes as usize;
+
                     // We found one or more chunk hashes present
                     self.add_file_data_sequence_entry(fse, n_deduped);
 
                     cur_idx += n_deduped;
                     continue;
                 } else {
-                    dedup_metrics.defrag_prevented_dedup_chunks += n_deduped;
-                    dedup_metrics.defrag_prevented_dedup_bytes += fse.unpacked_segment_bytes as usize;
+                    // The run is refused; its chunks are counted below if and when they are
+                    // stored as new data.
+                    defrag_withheld_end = defrag_withheld_end.max(cur_idx + n_deduped);
                 }
             }
 
@@ -197,6 +202,11 @@ impl<DataInterfaceType: DeduplicationDataInterface> FileDeduper<DataInterfaceTyp
             dedup_metrics.total_bytes += n_bytes;
             dedup_metrics.new_bytes += n_bytes;
             dedup_metrics.new_chunks += 1;
+
+            if cur_idx < defrag_withheld_end {
+                dedup_metrics.defrag_prevented_dedup_chunks += 1;
+                dedup_metrics.defrag_prevented_dedup_bytes += n_bytes;
+            }
 
             // Do we need to cut a new xorb first?
             if self.new_data_size + n_bytes > *MAX_XORB_BYTES || self.new_data.len() + 1 > *MAX_XORB_CHUNKS {
